@@ -38,18 +38,21 @@ type Profile struct {
 	MultiTokenCases                                                                                bool
 	PFallback                                                                                      float64 // probability that a poryswitch has a `_` case (default 0.5)
 	WCondGoto                                                                                      int     // weight of user-written goto_if_set/goto_if_unset commands (targets: labels of the same script)
+	PRepeatAuto                                                                                    float64 // probability that an AutoVar leaf repeats the previous AutoVar command verbatim
 	PoryContinueAnywhere                                                                           bool    // allow `continue` to end a poryswitch case that is not last in its block
 }
 
 // Gen is a generator instance for one program.
 type Gen struct {
-	R         *rand.Rand
-	P         Profile
-	Prog      *Program
-	n         int
-	labels    []string // labels of the current script
-	gotos     []*Cmd
-	condGotos []*Cmd
+	R           *rand.Rand
+	P           Profile
+	Prog        *Program
+	n           int
+	labels      []string // labels of the current script
+	gotos       []*Cmd
+	condGotos   []*Cmd
+	lastAuto    *Cmd
+	lastAutoVar string
 	// lexical context
 	loopDepth   int
 	breakDepth  int
@@ -238,6 +241,17 @@ func (g *Gen) Cmd() *Cmd {
 
 // AutoCmd generates an AutoVar command and registers its config.
 func (g *Gen) AutoCmd() (*Cmd, string) {
+	if g.lastAuto != nil && g.chance(g.P.PRepeatAuto) {
+		// the very same command text again (its own node id, shared arguments)
+		c := &Cmd{ID: g.Prog.NewID(), Name: g.lastAuto.Name, Args: g.lastAuto.Args, EmptyParens: g.lastAuto.EmptyParens}
+		return c, g.lastAutoVar
+	}
+	c, v := g.autoCmdFresh()
+	g.lastAuto, g.lastAutoVar = c, v
+	return c, v
+}
+
+func (g *Gen) autoCmdFresh() (*Cmd, string) {
 	c := g.Cmd()
 	c.Name = g.Name("av")
 	var varName string
